@@ -297,7 +297,31 @@ fn run_expr(d: &dyn Dialect, sql: &str) -> Value {
         (r, rest)
     }));
     let result = match r {
-        Ok((Ok(e), rest)) => json!({"ok": tree(&e), "rest": rest, "text": e.to_string()}),
+        Ok((Ok(e), rest)) => {
+            // C01/C05: print, re-tokenize the printed text, parse it again
+            let text = e.to_string();
+            let again = std::panic::catch_unwind(std::panic::AssertUnwindSafe(|| {
+                match Tokenizer::new(d, &text).tokenize() {
+                    Err(er) => json!({"tokerr": er.to_string()}),
+                    Ok(t2) => {
+                        let t2: Vec<Token> = t2.into_iter().filter(|t| !matches!(t, Token::Whitespace(_))).collect();
+                        let v2: Vec<Value> = t2.iter().map(tok_view).collect();
+                        let mut p2 = Parser::new(d).with_tokens(t2);
+                        let r2 = p2.parse_expr();
+                        let mut rest2 = 0usize;
+                        while p2.next_token().token != Token::EOF && rest2 < 100000 {
+                            rest2 += 1;
+                        }
+                        match r2 {
+                            Ok(e2) => json!({"ptokens": v2, "same": e2 == e, "rest": rest2, "text2": e2.to_string(), "ok": tree(&e2)}),
+                            Err(er) => json!({"ptokens": v2, "err": er.to_string()}),
+                        }
+                    }
+                }
+            }));
+            let again = match again { Ok(v) => v, Err(p) => json!({"panic": panic_msg(p)}) };
+            json!({"ok": tree(&e), "rest": rest, "text": text, "again": again})
+        }
         Ok((Err(e), _)) => json!({"err": e.to_string()}),
         Err(e) => json!({"panic": panic_msg(e)}),
     };
